@@ -2,11 +2,13 @@ import TabulaModel.Util
 import TabulaModel.Model.Detect
 import TabulaModel.Model.Drm
 import TabulaModel.Model.Admit
+import TabulaModel.Model.EncXml
+import TabulaModel.Model.DetectBytes
 /-
 Line protocol of C20 (see harness/c20/c20.go for the wire format).
 -/
 namespace Tabula.C20H
-open Tabula Tabula.Detect Tabula.Drm Tabula.Admit
+open Tabula Tabula.Detect Tabula.Drm Tabula.Admit Tabula.EncXml Tabula.DetectB
 
 def unhexS (s : String) : Option Str := (unhex s).map (·.map (·.toNat))
 
@@ -181,6 +183,148 @@ def handleApi (op : String) (args : List String) : String :=
     | _ => "bad-op"
   | _, _ => "bad-op"
 
+/-! ### wire format of the byte-exact ops (see harness/c20/bytes.go) -/
+
+def hexNat? (s : String) : Option Nat :=
+  if s.isEmpty then none
+  else s.toList.foldlM (fun acc c => (hexDigitVal c).map (acc * 16 + ·)) 0
+
+/-- `-` or `r:upper:lower` (hex) joined by `,`: the rows of the case tables for the runes
+that occur; every other rune is mapped to itself -/
+def parsePairs (s : String) : Option Tables :=
+  if s == "-" then some ⟨id, id⟩
+  else do
+    let rows ← (s.splitOn ",").mapM fun t =>
+      match t.splitOn ":" with
+      | [r, u, l] => do
+        let r ← hexNat? r; let u ← hexNat? u; let l ← hexNat? l
+        pure (r, u, l)
+      | _ => none
+    let look (sel : Nat × Nat × Nat → Nat) (r : Nat) : Nat :=
+      match rows.find? (fun row => row.1 == r) with
+      | some row => sel row
+      | none => r
+    pure ⟨look (fun row => row.2.1), look (fun row => row.2.2)⟩
+
+def isHexish (c : Char) : Bool := (hexDigitVal c).isSome || c == '-'
+
+def takeHexS (cs : List Char) : Option (Str × List Char) :=
+  let h := cs.takeWhile isHexish
+  (unhexS (String.ofList h)).map fun bs => (bs, cs.dropWhile isHexish)
+
+/-- attributes: { `@` space `~` local `~` value } -/
+partial def parseXAttrs (cs : List Char) (acc : List XAttr) : Option (List XAttr × List Char) :=
+  match cs with
+  | '@' :: rest =>
+    match takeHexS rest with
+    | some (sp, '~' :: r1) =>
+      match takeHexS r1 with
+      | some (lc, '~' :: r2) =>
+        match takeHexS r2 with
+        | some (v, r3) => parseXAttrs r3 (⟨sp, lc, v⟩ :: acc)
+        | none => none
+      | _ => none
+    | _ => none
+  | _ => some (acc.reverse, cs)
+
+mutual
+partial def parseXNode (cs : List Char) : Option (XNode × List Char) :=
+  match cs with
+  | '.' :: rest => some (.other, rest)
+  | '(' :: rest =>
+    match takeHexS rest with
+    | some (n, r1) =>
+      match parseXAttrs r1 [] with
+      | some (as, r2) =>
+        match parseXKids r2 [] with
+        | some (ks, r3) => some (.elem n as ks, r3)
+        | none => none
+      | none => none
+    | none => none
+  | _ => none
+partial def parseXKids (cs : List Char) (acc : List XNode) : Option (List XNode × List Char) :=
+  match cs with
+  | ')' :: rest => some (acc.reverse, rest)
+  | [] => none
+  | _ =>
+    match parseXNode cs with
+    | some (n, rest) => parseXKids rest (n :: acc)
+    | none => none
+end
+
+/-- `B` or a tree -/
+def parseDoc (s : String) : Option EncDoc :=
+  if s == "B" then some none
+  else match parseXNode s.toList with
+    | some (n, []) => some (some n)
+    | _ => none
+
+/-- `namehex[:d=<contenthex>][:x=<doc>]` -/
+def parseXMember (s : String) : Option XMember :=
+  match s.splitOn ":" with
+  | [] => none
+  | n :: opts => do
+    let n ← unhexS n
+    opts.foldlM (init := ({ name := n } : XMember)) fun m o =>
+      if o.startsWith "d=" then do
+        let d ← unhexS (o.drop 2).toString
+        pure { m with data := some d }
+      else if o.startsWith "x=" then do
+        let d ← parseDoc (o.drop 2).toString
+        pure { m with doc := d }
+      else none
+
+def parseXZip (s : String) : Option (Option (List XMember)) :=
+  if s == "err" then some none
+  else if s == "-" then some (some [])
+  else ((s.splitOn ",").mapM parseXMember).map some
+
+def parseFSB (s : String) : Option FileStateB :=
+  if s == "M" then some .missing
+  else if s == "D" then some .unreadable
+  else match s.splitOn "/" with
+    | ["F", h, a, z] => do
+      let h ← unhexS h; let a ← parseAccepts a; let z ← parseXZip z
+      pure (.file ⟨h, z, a⟩)
+    | _ => none
+
+def entriesOut (es : List Entry) : String :=
+  if es.isEmpty then "none"
+  else ";".intercalate (es.map fun e => s!"{hex (e.algorithm.map UInt8.ofNat)}.{hex (e.uri.map UInt8.ofNat)}")
+
+def handleBytes (op : String) (args : List String) : String :=
+  match op, args with
+  | "c20.extb", [n, p] => match unhexS n, parsePairs p with
+    | some n, some t => (detectB t.lo n).name | _, _ => "bad-op"
+  | "c20.magicb", [b, p] => match unhexS b, parsePairs p with
+    | some b, some t => (detectFromMagicB t.up b).name | _, _ => "bad-op"
+  | "c20.contentb", [u, p] => match unhexS u, parsePairs p with
+    | some u, some t => toString (isContentFileB t.lo u) | _, _ => "bad-op"
+  | "c20.mimeb", [d] => match unhexS d with
+    | some d =>
+      s!"{(detectZipB [⟨nMimetype, some d⟩]).name} {mimeCheckName (validateMimetypeB [⟨nMimetype, some d, none⟩])}"
+    | none => "bad-op"
+  | "c20.encxml", [d, p] => match parseDoc d, parsePairs p with
+    | some d, some t =>
+      let ent := match encEntries d with | some es => entriesOut es | none => "err"
+      let dec := match encEntries d with
+        | some es => toString (hasEncryptedContentB t.lo es)
+        | none => "err"
+      s!"{ent} {dec}"
+    | _, _ => "bad-op"
+  | "c20.admitb", [n, fs, p] => match unhexS n, parseFSB fs, parsePairs p with
+    | some n, some fs, some t =>
+      (match admitFileB t (detectB t.lo n) fs with
+        | .ok f => s!"ok:{f.name}"
+        | .error o => s!"err:{outcomeName o}")
+    | _, _, _ => "bad-op"
+  | "c20.openb", [n, fs, k, p] => match unhexS n, parseFSB fs, k.toList, parsePairs p with
+    | some n, some fs, [k], some t => match parseKind k with
+      | some k => outcomeName (openAndRunB t n fs k).out
+      | none => "bad-op"
+    | _, _, _, _ => "bad-op"
+  | _, _ => "bad-op"
+
 def handle (op : String) (args : List String) : String :=
   match op, args with
   | "c20.ext", [n] => match unhexS n with
@@ -210,6 +354,6 @@ def handle (op : String) (args : List String) : String :=
     | some u => toString (isContentFile u) | none => "bad-op"
   | "c20.drm", [ms] => match parseDMembers ms with
     | some ms => if checkForDRM ms then "drm" else "ok" | none => "bad-op"
-  | _, _ => handleApi op args
+  | _, _ => if op.endsWith "b" || op == "c20.encxml" then handleBytes op args else handleApi op args
 
 end Tabula.C20H
